@@ -49,7 +49,9 @@ func (m *M) handlerFunc(h *Handler, isFinally bool) Value {
 			m.log(tag, arg(args, 0))
 		}
 		if h.Do != nil {
-			m.exec(h.Do)
+			if thrown, ok := m.exec(h.Do); !ok {
+				return thrown, false
+			}
 		}
 		v := m.eval(h.V)
 		return v, h.K != HThrow
@@ -65,8 +67,8 @@ func (m *M) assign(dst int, v Value) {
 	}
 }
 
-// exec executes one operation.
-func (m *M) exec(op *Op) {
+// exec executes one operation; ok=false: it completed abruptly (thrown is the exception) and assigned nothing.
+func (m *M) exec(op *Op) (thrown Value, ok bool) {
 	switch op.K {
 	case OpNew:
 		executor := &Func{Call: func(this Value, args []Value) (Value, bool) {
@@ -110,19 +112,35 @@ func (m *M) exec(op *Op) {
 			f.Call(Undefined, []Value{v})
 		}
 	case OpThen:
-		v, _ := m.invokeThen(m.varValue(op.Src), m.handlerFunc(op.F, false), m.handlerFunc(op.R, false))
+		v, ok := m.invokeThen(m.varValue(op.Src), m.handlerFunc(op.F, false), m.handlerFunc(op.R, false))
+		if !ok {
+			return v, false
+		}
 		m.assign(op.Dst, v)
 	case OpCatch:
-		v, _ := m.Catch(m.varValue(op.Src), m.handlerFunc(op.R, false))
+		v, ok := m.Catch(m.varValue(op.Src), m.handlerFunc(op.R, false))
+		if !ok {
+			return v, false
+		}
 		m.assign(op.Dst, v)
 	case OpFinally:
-		v, _ := m.Finally(m.varValue(op.Src), m.handlerFunc(op.F, true))
+		src := m.varValue(op.Src)
+		if !isObject(src) {
+			return &ErrObj{Ctor: "TypeError"}, false
+		}
+		v, ok := m.Finally(src, m.handlerFunc(op.F, true))
+		if !ok {
+			return v, false
+		}
 		m.assign(op.Dst, v)
 	case OpStatic:
 		var v Value
 		switch op.St {
 		case StResolve:
-			v = m.promiseResolve(op.Cls, m.eval(op.V))
+			var ok bool
+			if v, ok = m.promiseResolve(op.Cls, m.eval(op.V)); !ok {
+				return v, false
+			}
 		case StReject:
 			v = m.promiseReject(op.Cls, m.eval(op.V))
 		default:
@@ -137,7 +155,22 @@ func (m *M) exec(op *Op) {
 		m.assign(op.Dst, m.asyncCall(op.ID, op.Body))
 	case OpLog:
 		m.log(fmt.Sprintf("s%d", op.ID))
+	case OpSetCtor:
+		p, isP := m.varValue(op.Src).(*Promise)
+		if !isP {
+			// the variable was never assigned (the operation that should have assigned it threw): property access on undefined
+			return &ErrObj{Ctor: "TypeError"}, false
+		}
+		if op.Ctor != nil {
+			if p.ctorOv != nil && p.ctorOv.Getter && !op.Ctor.Getter {
+				// sloppy-mode assignment to an accessor property without a setter: silently ignored (OrdinarySet returns false)
+				break
+			}
+			c := *op.Ctor
+			p.ctorOv = &c
+		}
 	}
+	return nil, true
 }
 
 // StepResult is what the model predicts to be observable after one step of the schedule.
@@ -191,7 +224,10 @@ func (m *M) snapshot() (st [MaxVars]string) {
 func (m *M) RunSegment(seg int) {
 	for i := range m.prog.Segs[seg] {
 		m.origin = seg*100 + i + 1
-		m.exec(&m.prog.Segs[seg][i])
+		if thrown, ok := m.exec(&m.prog.Segs[seg][i]); !ok {
+			// the printer guards every statement that can throw: try { … } catch (e) { log("thrown", e) }
+			m.log("thrown", thrown)
+		}
 	}
 	m.origin = 0
 	m.Drain()
